@@ -72,6 +72,7 @@ type AClient struct {
 	Bursts   []ABurst `json:"bursts"`
 	TailMs   int      `json:"tail_ms"`
 	HoldOpen bool     `json:"hold_open,omitempty"` // the client never closes: the connection is still open when the agent is stopped
+	Abortive bool     `json:"abortive,omitempty"`  // the client ends with a reset (killed process, SO_LINGER 0, a middlebox) once the agent has read everything it sent
 }
 
 // AUp scripts one upstream connection attempt (in global order of dials)
@@ -751,6 +752,16 @@ func (w *worldA) tweak(r *simrt.Rand, s *AScenario, end int) {
 		seeds := [][]string{{"ab", "c"}, {"a", "bc"}, {"a,b", "c"}, {"a", "b,c"}, {"", "a"}, {"a", ""}, {",", ""}, {"", ","}, {"a/b", "c"}, {"a", "b"}, {"a\t", "a"}, {"a", "\ta"}, {"\t", "a"},
 			// bytes that are not UTF-8: whatever cleans them up for a label, a log line or a directory name must not merge the key sets
 			{"\xff", "c"}, {"\xfe", "c"}, {"\uFFFD", "c"}, {"a\xc0b", "\xff"}, {"a\xc1b", "\xff"}}
+		// whole couples first: two tuples that coincide under some way of merging, joining, cleaning or sanitising key values -
+		// one member alone shows nothing
+		couples := [][2][2]string{{{"ab", "c"}, {"a", "bc"}}, {{"a,b", "c"}, {"a", "b,c"}}, {{"", "a"}, {"a", ""}}, {{",", ""}, {"", ","}},
+			{{"a/b", "c"}, {"a\x00b", "c"}}, {{"a/b", "c"}, {"a_b", "c"}}, {{"a\t", "a"}, {"a", "\ta"}}, {{"\xff", "c"}, {"\xfe", "c"}},
+			{{"\xff", "c"}, {"\uFFFD", "c"}}, {{"a\xc0b", "\xff"}, {"a\xc1b", "\xff"}}, {{"a.", "b"}, {"a", ".b"}}}
+		for i, n := 0, r.Intn(3); i < n; i++ {
+			c := couples[r.Intn(len(couples))]
+			lvl := fmt.Sprint(3 + r.Intn(3))
+			s.KeyTuples = append(s.KeyTuples, []string{c[0][0], lvl, c[0][1]}, []string{c[1][0], lvl, c[1][1]})
+		}
 		for i, n := 0, 2+r.Intn(5); i < n; i++ {
 			var app, pid string
 			if r.Bool(60) {
@@ -796,6 +807,10 @@ func (w *worldA) tweak(r *simrt.Rand, s *AScenario, end int) {
 				}
 				bu.Recs = recs
 			}
+		}
+		for ci := range s.Clients {
+			// "abrupt disconnects": a reset instead of an orderly close, right after the last bytes or a little later
+			s.Clients[ci].Abortive = r.Bool(30)
 		}
 		// a last, clean connection after the hostile phase
 		s.Clients = append(s.Clients, AClient{StartMs: end + 3000, Bursts: []ABurst{{Recs: []ARec{{Key: 0}, {Key: 0, TS: 1}}}}})
@@ -897,6 +912,16 @@ func (w *worldA) tweak(r *simrt.Rand, s *AScenario, end int) {
 		s.ChunkMaxBytes = []int{200, 300, 600, 2000, 65536}[r.Intn(5)]
 		s.ChunkMaxRecs = []int{0, 1, 2, 3, 10}[r.Intn(5)]
 		s.MemCap = r.Range(2, 5)
+		if r.Bool(15) {
+			// a reload replaces every pipeline - and with it every chunk maker and id generator - at one instant, while chunks of
+			// the old ones are still queued: ids have to stay unique between the old and the new generator of a pipeline
+			s.Reloader = true
+			at := r.Intn(end + 1)
+			if bt := burstTimes(s); len(bt) > 0 && r.Bool(70) {
+				at = bt[r.Intn(len(bt))] // in the middle of a burst: its records reach old and new pipelines within the same millisecond
+			}
+			s.Events = append(s.Events, AEvent{AtMs: at, Kind: "sighup_valid"})
+		}
 		for ci := range s.Clients {
 			for bi := range s.Clients[ci].Bursts {
 				for ri := range s.Clients[ci].Bursts[bi].Recs {
